@@ -68,6 +68,7 @@ Section Core.
   | ONotifyAirTouch (sub : nat)
   | OStartHeartbeat
   | OStartPoll
+  | OPollReset                                (* AT4: a group status re-arms the 300 s poll deadline *)
   | OInitialised.
 
   Definition empty (poll : bool) : client :=
@@ -222,7 +223,8 @@ Section Core.
     | EvZoneStatusEcho true, InitZoneStatus => finish_init c
     | EvAcStatus l, Connected => proc_ac_status c l
     | EvTimer l, Connected => proc_timer c l
-    | EvZoneStatus l, Connected => proc_zone_status c l
+    | EvZoneStatus l, Connected =>
+      let '(c1, o) := proc_zone_status c l in (c1, (if c_uses_poll c then [OPollReset] else []) ++ o)
     | EvVersion u vs, Connected =>
       (mkClient Connected (u, vs) (c_zones c) (c_acs c) (c_initialised c) (c_subs c) (c_hb_started c) (c_uses_poll c),
        if version_eqb (c_version c) (u, vs) then [] else map ONotifyAirTouch (c_subs c))
@@ -247,6 +249,40 @@ Section Core.
   (* shutdown(): state closed, event cleared, model emptied *)
   Definition on_shutdown (c : client) : client :=
     mkClient Closed (c_version c) [] [] false (c_subs c) false (c_uses_poll c).
+
+  (* ------------------------------------------------------------ subscriptions *)
+  (* subscriber sets: add is idempotent, discard removes *)
+  Definition add_sub (l : list nat) (s : nat) : list nat := if existsb (Nat.eqb s) l then l else l ++ [s].
+  Definition del_sub (l : list nat) (s : nat) : list nat := filter (fun x => negb (Nat.eqb x s)) l.
+
+  Inductive subop :=
+  | SubZone (z : N) (s : nat) | UnsubZone (z : N) (s : nat)
+  | SubAc (a : N) (s : nat) | UnsubAc (a : N) (s : nat)
+  | SubAcState (a : N) (s : nat) | UnsubAcState (a : N) (s : nat)
+  | SubAirTouch (s : nat) | UnsubAirTouch (s : nat).
+
+  Definition map_zone (c : client) (zid : N) (f : list nat -> list nat) : client :=
+    mkClient (c_state c) (c_version c)
+             (map (fun z => if z_id z =? zid then mkZone (z_id z) (z_name z) (z_status z) (f (z_subs z)) else z) (c_zones c))
+             (c_acs c) (c_initialised c) (c_subs c) (c_hb_started c) (c_uses_poll c).
+  Definition map_ac (c : client) (aid : N) (f g : list nat -> list nat) : client :=
+    with_acs c (map (fun a => if a_id a =? aid
+                              then mkAc (a_id a) (a_ability a) (a_status a) (a_timer a) (a_err a) (a_zones a)
+                                        (f (a_subs a)) (g (a_subs_state a))
+                              else a) (c_acs c)).
+  Definition apply_subop (c : client) (op : subop) : client :=
+    match op with
+    | SubZone z s => map_zone c z (fun l => add_sub l s)
+    | UnsubZone z s => map_zone c z (fun l => del_sub l s)
+    | SubAc a s => map_ac c a (fun l => add_sub l s) (fun l => l)
+    | UnsubAc a s => map_ac c a (fun l => del_sub l s) (fun l => l)
+    | SubAcState a s => map_ac c a (fun l => l) (fun l => add_sub l s)
+    | UnsubAcState a s => map_ac c a (fun l => l) (fun l => del_sub l s)
+    | SubAirTouch s =>
+      mkClient (c_state c) (c_version c) (c_zones c) (c_acs c) (c_initialised c) (add_sub (c_subs c) s) (c_hb_started c) (c_uses_poll c)
+    | UnsubAirTouch s =>
+      mkClient (c_state c) (c_version c) (c_zones c) (c_acs c) (c_initialised c) (del_sub (c_subs c) s) (c_hb_started c) (c_uses_poll c)
+    end.
 
   Fixpoint run_events (c : client) (es : list event) : client * list out :=
     match es with
